@@ -2,9 +2,10 @@
 Model of the privacy decision of pydoctor:
 
 * `System.privacyClass` (pydoctor/model.py): cache lookup by qualified name, `kind is None`,
-  the default by leading underscore / dunder, exact rules newest first, then pattern rules newest
+  the default by leading underscore / dunder and for modules named `__main__`, exact rules newest first, then pattern rules newest
   first (`qnmatch` may raise), cache store.
-* `Documentable.privacyClass`, `Module.privacyClass` (the `__main__` special case),
+* `Documentable.privacyClass`, the `__main__` default (inside `System.privacyClass` since c8d85b0; the former
+  `Module.privacyClass` override is kept as `privacyClassBefore_c8d85b0`),
   `Documentable.isVisible` (own class, then "is my parent's contents entry", then the parent chain), `Documentable.isPrivate`.
 * `utils.parse_privacy_tuple` on ASCII input (with the validation of the pattern added by
   "fix: reject a --privacy pattern that does not translate to a valid regular expression") and
@@ -74,6 +75,21 @@ def defaultLevel (name : List Char) : Level :=
   if startsWith ['_'] name && !(startsWith ['_', '_'] name && endsWith ['_', '_'] name) then .priv
   else .pub
 
+def mainName : List Char := ['_', '_', 'm', 'a', 'i', 'n', '_', '_']
+
+/-- the whole default (since c8d85b0 the `__main__` case is a default like the underscore rule):
+```
+privacy = PrivacyClass.PUBLIC
+if ob.name.startswith('_') and not (ob.name.startswith('__') and ob.name.endswith('__')):
+    privacy = PrivacyClass.PRIVATE
+elif isinstance(ob, Module) and ob.name == '__main__':
+    privacy = PrivacyClass.PRIVATE
+``` -/
+def defaultOf (ob : Obj) : Level :=
+  if defaultLevel ob.name = .priv then .priv
+  else if ob.isModule && ob.name = mainName then .priv
+  else .pub
+
 /-- first loop, over `reversed(self.options.privacy)`: `if ob_fullName == match` -/
 def findExact (revRules : List Rule) (fullName : List Char) : Option Level :=
   match revRules with
@@ -105,7 +121,7 @@ def decide (rules : List Rule) (ob : Obj) : Res :=
   | none =>
     match findPattern rules.reverse ob.fullName with
     | .found l => .ok l
-    | .notFound => .ok (defaultLevel ob.name)
+    | .notFound => .ok (defaultOf ob)
     | .raised e => .err e
 
 /-- `System.privacyClass(ob)`: result and the cache afterwards -/
@@ -119,13 +135,25 @@ def systemPrivacyClass (rules : List Rule) (cache : Cache) (ob : Obj) : Res × C
       | .ok l => (.ok l, cache ++ [(ob.fullName, l)])
       | .err e => (.err e, cache)
 
-def mainName : List Char := ['_', '_', 'm', 'a', 'i', 'n', '_', '_']
-
-/-- `ob.privacyClass` (property): `Module.privacyClass` answers PRIVATE for a module named
-`__main__` without asking the system; everything else defers to `System.privacyClass` -/
+/-- `ob.privacyClass` (property): `return self.system.privacyClass(self)`; since c8d85b0 no subclass
+overrides it -/
 def privacyClass (rules : List Rule) (cache : Cache) (ob : Obj) : Res × Cache :=
-  if ob.isModule && ob.name = mainName then (.ok .priv, cache)
-  else systemPrivacyClass rules cache ob
+  systemPrivacyClass rules cache ob
+
+/-- historical: `Module.privacyClass` before c8d85b0 answered PRIVATE for a module named `__main__`
+without asking the system (rules and cache never consulted); the default of `System.privacyClass`
+was the underscore rule alone.  Kept for the counterexample theorems of PdProps.C13. -/
+def privacyClassBefore_c8d85b0 (rules : List Rule) (ob : Obj) : Res :=
+  if ob.isModule && ob.name = mainName then .ok .priv
+  else if ob.kindNone then .ok .hidden
+  else
+    match findExact rules.reverse ob.fullName with
+    | some l => .ok l
+    | none =>
+      match findPattern rules.reverse ob.fullName with
+      | .found l => .ok l
+      | .notFound => .ok (defaultLevel ob.name)
+      | .raised e => .err e
 
 inductive BoolRes where
   | ok (b : Bool)
